@@ -284,6 +284,90 @@ fn verdict(md: &Metadata, network: &Network, imports: &[(String, Vec<String>)], 
     }
 }
 
+/// The front end of `cargo vet aggregate`: raw source texts (incl. entries naming criteria the
+/// source does not define, alone or next to defined ones) sanitised by the real
+/// `foreign_audit_source_to_local_warn`, merged by the real `do_aggregate_audits`.  The output must
+/// be a loadable audits file: every criterion it names is a built-in or defined in it, and a store
+/// with it as audits.toml is accepted by the loader.
+fn dirty_front_end(r: &mut Report, rng: &mut Rng, sources: &[(String, AuditsFile)], descr: &str) {
+    let mut texts: Vec<(String, String)> = Vec::new();
+    for (u, f) in sources {
+        let mut f2 = f.clone();
+        let undef = gen::sp("c-not-defined-here".to_owned());
+        for l in f2.audits.values_mut() {
+            for a in l.iter_mut() {
+                if rng.chance(1, 4) { a.criteria.push(undef.clone()); }
+            }
+        }
+        for l in f2.wildcard_audits.values_mut() {
+            for a in l.iter_mut() {
+                if rng.chance(1, 3) { a.criteria.push(undef.clone()); }
+            }
+        }
+        for l in f2.trusted.values_mut() {
+            for a in l.iter_mut() {
+                if rng.chance(1, 2) { a.criteria.push(undef.clone()); }
+            }
+        }
+        // entries with only the undefined criterion
+        let c0 = CRATES[0].to_string();
+        f2.trusted.entry(c0.clone()).or_default().push(TrustEntry { criteria: vec![undef.clone()], user_id: 9, start: gen::sp(gen::date(0)), end: gen::sp(gen::date(30)), notes: None, aggregated_from: vec![] });
+        if rng.chance(1, 2) {
+            f2.trusted.entry(c0).or_default().push(TrustEntry { criteria: vec![gen::sp(SAFE_TO_RUN.to_owned()), undef.clone()], user_id: 8, start: gen::sp(gen::date(0)), end: gen::sp(gen::date(30)), notes: None, aggregated_from: vec![] });
+        }
+        let Ok(doc) = crate::serialization::to_formatted_toml(&f2, None) else { return };
+        texts.push((u.clone(), doc.to_string()));
+    }
+    r.oracle_checked += 1;
+    let parsed = guarded(|| {
+        let mut out = Vec::new();
+        for (u, t) in &texts {
+            match crate::storage::foreign_audit_source_to_local_warn(u, crate::errors::SourceFile::new(u, t.clone())) {
+                Ok(f) => out.push((u.clone(), f)),
+                Err(e) => return Err(format!("{e:?}").chars().take(300).collect::<String>()),
+            }
+        }
+        Ok(out)
+    });
+    let clean = match parsed {
+        Ok(Ok(v)) => v,
+        Ok(Err(_)) => return,
+        Err(p) => {
+            if r.prop == "C16" { r.fail("oracle", "C16/front-end-panics", p, descr); }
+            return;
+        }
+    };
+    let Ok(Ok(agg)) = guarded(|| crate::do_aggregate_audits(clean)) else { return };
+    let defined: BTreeSet<String> = [SAFE_TO_RUN.to_owned(), SAFE_TO_DEPLOY.to_owned()].into_iter().chain(agg.criteria.keys().cloned()).collect();
+    let mut named: Vec<String> = Vec::new();
+    named.extend(agg.audits.values().flatten().flat_map(|a| a.criteria.iter().map(|c| c.to_string())));
+    named.extend(agg.wildcard_audits.values().flatten().flat_map(|a| a.criteria.iter().map(|c| c.to_string())));
+    named.extend(agg.trusted.values().flatten().flat_map(|a| a.criteria.iter().map(|c| c.to_string())));
+    named.extend(agg.criteria.values().flat_map(|c| c.implies.iter().map(|c| c.to_string())));
+    if let Some(bad) = named.iter().find(|c| !defined.contains(*c)) {
+        if r.prop == "C16" {
+            r.fail("oracle", "C16/aggregate-names-undefined-criterion", format!("the aggregate names `{bad}`, which it does not define"), &format!("{descr}\n=== raw sources\n{}", texts.iter().map(|(u, t)| format!("--- {u}\n{t}")).collect::<Vec<_>>().join("\n")));
+        }
+        return;
+    }
+    // accepted by the loader as an audits.toml
+    let text = crate::serialization::to_formatted_toml(&agg, None).unwrap().to_string();
+    let config = crate::serialization::to_formatted_toml(&ConfigFile { cargo_vet: Default::default(), default_criteria: get_default_criteria(), imports: SortedMap::new(), policy: Default::default(), exemptions: SortedMap::new() }, None).unwrap().to_string();
+    match guarded(|| Store::mock_acquire(&config, &text, "", mock_today(), false)) {
+        Ok(Ok(_)) => {}
+        Ok(Err(e)) => {
+            let msg = format!("{e:?}");
+            // (wildcard end dates of generated sources may lie beyond the one-year cap: not the point here)
+            if r.prop == "C16" && !msg.contains("BadWildcardEndDate") {
+                r.fail("oracle", "C16/aggregate-not-accepted-by-loader", msg.chars().take(400).collect(), &format!("{descr}\n=== output\n{text}"));
+            }
+        }
+        Err(p) => {
+            if r.prop == "C16" { r.fail("oracle", "C16/loader-panics-on-aggregate", p, &format!("{descr}\n=== output\n{text}")); }
+        }
+    }
+}
+
 pub fn run(r: &mut Report) {
     let mut d = Driver::spawn();
     let (shard, nshards) = shard();
@@ -341,6 +425,7 @@ pub fn run(r: &mut Report) {
         if differ != agg.is_none() && r.prop == "C16" {
             r.fail("oracle", "C16/error-iff", format!("sources define a criterion differently: {differ}; aggregation failed: {}", agg.is_none()), &descr);
         }
+        dirty_front_end(r, rng, &sources, &descr);
         let Some(agg) = agg else { continue };
         // content: exactly the importable audits / all wildcard / trusted entries, tagged
         for c in CRATES.iter() {
